@@ -103,7 +103,7 @@ def check_pair(S, rep, dim, nc):
         root = lv
         der = getattr(lv.alloc, "derivation", None)
         reshaped = False
-        while der is not None and der[0] in ("reshape", "copy", "astype"):
+        while der is not None and der[0] in ("reshape", "copy", "astype", "maybe_copy"):
             root = der[1][0]
             reshaped = reshaped or der[0] == "reshape"
             der = getattr(root.alloc, "derivation", None)
